@@ -11,7 +11,7 @@
   previous-operation code.  Leak freedom and the absence of invalid accesses in the real code are
   sanitizer results of the correspondence run, not theorems.
 -/
-import MptModel.Lemmas.ParseLoop
+import MptModel.Lemmas.ParseEof
 
 namespace Mpt.C08
 open Mpt Mpt.Parse Mpt.Events
@@ -38,7 +38,11 @@ theorem total_calls (k : Kind) (cfg : Cfg) (failAt : Option Nat) (prev : Nat) (i
   simp only [List.length_nil, Nat.zero_add] at this
   split at this <;> omega
 
-/-- **Each character is read once**: when `mpt_parse_config` returns — with any handler, successfully
+/-- **Each character is read once** (NOTE: every function written against the `Src` interface of M has
+    this property — a `Src` is only ever advanced by `getc`/`scan` — so the theorem shows that M never
+    re-reads or pushes back, and the tie compares the number of `getc` calls and of consumed bytes of the
+    real parser with M on every script, op `p stat`; there is no bound on observations of the end marker,
+    which the property does not count): when `mpt_parse_config` returns — with any handler, successfully
     or not — the characters delivered by `getc` so far (`trace`, newest first) followed by the unread
     rest are exactly the input: the i-th successful `getc` returned `input[i]`, nothing was skipped,
     nothing was delivered twice; and every delivered character cost at least one `getc` call (`reads`
@@ -87,10 +91,21 @@ theorem element_shape (k : Kind) (cfg : Cfg) (prev : Nat) (s : St) (src : Src) :
         ∧ (next k cfg prev s src).2.1.path.elems = s.path.elems) :=
   next_good k cfg prev s src
 
-/-! ### fail clean -/
+/-! ### fail clean
 
-/-- **A failed parse leaves the target as it was**: `mpt_parse_node` returning a negative code has the
-    children of the target unchanged (the temporary tree is dropped, nothing was merged). -/
+  NOTE (true by the construction of M): the three `fail_clean*` theorems read off the shape of the model
+  functions — `parseNode` builds a temporary tree and merges it only on success, `nodeParse` sets the
+  children aside and puts them back on failure, `parserRead` replaces the children only on success — which
+  is the shape of the C functions (local `conf` node in parse_node.c, `old` children in node_parse.c,
+  `tmp` node in mpt++/parse.cpp).  M is purely functional: it cannot express a parser that damages the
+  target while it fails.  That the REAL functions leave the target alone is established by the
+  correspondence run only (`p node`, `p nparse`, `x read`: the spec column allows `err` only together with
+  the old target, printed by walking the real tree, and the sanitizers watch the walk), not by these
+  theorems. -/
+
+/-- **A failed parse leaves the target as it was** (definitional in M, see the note above):
+    `mpt_parse_node` returning a negative code has the children of the target unchanged (the temporary
+    tree is dropped, nothing was merged). -/
 theorem fail_clean (root : Conf.Forest) (str : Option (List UInt8)) (sect opt : Nat) (eof : Int)
     (input : List UInt8) (h : (parseNode root str sect opt eof input).code < 0) :
     (parseNode root str sect opt eof input).children = root := by
@@ -108,7 +123,7 @@ theorem fail_clean (root : Conf.Forest) (str : Option (List UInt8)) (sect opt : 
       · exact absurd (by assumption) hn
       · exact absurd h hn
 
-/-- the same for the stdio front end `mpt_node_parse` (with or without logger): a refused restriction
+/-- (definitional in M) the same for the stdio front end `mpt_node_parse` (with or without logger): a refused restriction
     text or a failed parse returns a negative code and the children of the target as they were -/
 theorem fail_clean_node_parse (root : Conf.Forest) (str limits : Option (List UInt8)) (input : List UInt8)
     (h : (nodeParse root str limits input).code < 0) : (nodeParse root str limits input).children = root := by
@@ -123,7 +138,7 @@ theorem fail_clean_node_parse (root : Conf.Forest) (str limits : Option (List UI
     · rw [if_neg hn] at h
       exact absurd h hn
 
-/-- and for the C++ wrapper `mpt::parser::read` (one context for all reads of a parser object): a failed
+/-- (definitional in M) and for the C++ wrapper `mpt::parser::read` (one context for all reads of a parser object): a failed
     read leaves the children of the target as they were, whatever the earlier reads left in the context -/
 theorem fail_clean_parser_read (k : Kind) (cfg : Cfg) (curr : Nat) (target : Conf.Forest) (unread : List UInt8)
     (h : (parserRead k cfg curr target unread).1.code < 0) : (parserRead k cfg curr target unread).2 = target := by
@@ -131,33 +146,100 @@ theorem fail_clean_parser_read (k : Kind) (cfg : Cfg) (curr : Nat) (target : Con
   simp only [] at h ⊢
   rw [if_pos h]
 
-/-- a handler refusal is reported: `mpt_parse_config` returns -0x80 as soon as the handler refuses,
-    so nothing is delivered after a refusal -/
-theorem refusal_reported (k : Kind) (cfg : Cfg) (n : Nat) (prev : Nat) (input : List UInt8) :
-    (parseConfig k cfg (record (some n)) [] prev input).ctx.length ≤ n := by
+/-! ### a failed parse reports an error -/
+
+/-- the return code of `mpt_parse_config` is 0 (success) or negative, for every handler -/
+theorem code_nonpos {α : Type} (k : Kind) (cfg : Cfg) (save : Handler α) (ctx : α) (prev : Nat)
+    (input : List UInt8) : (parseConfig k cfg save ctx prev input).code ≤ 0 :=
+  (loop_code k cfg save ctx prev {} { rest := input }).1
+
+/-- **A read error is never a success**: when the source ends with anything but the regular end
+    marker -2 (`getc` reports -1 = read error), `mpt_parse_config` returns a negative code — for every
+    input read before the error, every format, every handler.  (The elements completed before the error
+    have been delivered; the error is reported by the call that meets it or by the one after.) -/
+theorem read_error_reported {α : Type} (k : Kind) (cfg : Cfg) (save : Handler α) (ctx : α) (prev : Nat)
+    (input : List UInt8) (h : cfg.eof ≠ -2) : (parseConfig k cfg save ctx prev input).code < 0 := by
+  have := loop_code k cfg save ctx prev {} { rest := input }
   unfold parseConfig
-  refine loop_induction k cfg (record (some n)) (fun evs _ _ _ => evs.length ≤ n)
-    (fun r => r.ctx.length ≤ n) ?_ ?_ ?_ ?_ _ [] prev {} { rest := input } (Nat.le_refl _) (Nat.zero_le _)
-  · intro ctx _ _ _ hp _; exact hp
-  · intro ctx _ _ _ hp _ _; exact hp
-  · intro ctx prev' s' src' ctx1 e hp _ hs _
-    simp only [record] at hs
-    split at hs
-    · cases hs
-    · rename_i hne
-      simp only [Option.some.injEq] at hs; rw [← hs]
-      simp only [List.length_cons]
-      have : ctx.length ≠ n := by intro heq; apply hne; simp [heq]
-      omega
-  · intro ctx prev' s' src' ctx1 p hp _ hs _
-    simp only [record] at hs
-    split at hs
-    · cases hs
-    · rename_i hne
-      simp only [Option.some.injEq] at hs; rw [← hs]
-      simp only [List.length_cons]
-      have : ctx.length ≠ n := by intro heq; apply hne; simp [heq]
-      omega
+  have h0 : (loop k cfg save ctx prev {} { rest := input }).code ≠ 0 := fun h0 => h (this.2 h0)
+  omega
+
+/-- … and `mpt_parse_node` then fails and leaves the target alone -/
+theorem read_error_reported_node (root : Conf.Forest) (str : Option (List UInt8)) (sect opt : Nat) (eof : Int)
+    (input : List UInt8) (h : eof ≠ -2) :
+    (parseNode root str sect opt eof input).code < 0 ∧ (parseNode root str sect opt eof input).children = root := by
+  have hc : (parseNode root str sect opt eof input).code < 0 := by
+    unfold parseNode
+    simp only []
+    split
+    · exact Err.code_neg Err.BadType
+    · rename_i kk _
+      have := read_error_reported kk { fmt := (parseFormat str).1, sect := sect, opt := opt, eof := eof } nodeAppend
+        ({} : Build) Flag.section_ input h
+      rw [if_pos this]; exact this
+  exact ⟨hc, fail_clean root str sect opt eof input hc⟩
+
+/-- **A handler refusal is reported, and nothing is delivered after it**: let the handler refuse its
+    call number `n` (counted from 0).  If the accepting handler would get more than `n` calls on this
+    input, `mpt_parse_config` returns -0x80 and the events delivered are exactly the first `n` events of
+    the accepting run; otherwise the refusal never happens and the result is that of the accepting
+    run. -/
+theorem refusal_reported (k : Kind) (cfg : Cfg) (n : Nat) (prev : Nat) (input : List UInt8) :
+    (n < (parseConfig k cfg (record none) [] prev input).ctx.length →
+        (parseConfig k cfg (record (some n)) [] prev input).code = -128
+        ∧ (parseConfig k cfg (record (some n)) [] prev input).ctx.reverse
+            = (parseConfig k cfg (record none) [] prev input).ctx.reverse.take n)
+    ∧ ((parseConfig k cfg (record none) [] prev input).ctx.length ≤ n →
+        parseConfig k cfg (record (some n)) [] prev input = parseConfig k cfg (record none) [] prev input) := by
+  unfold parseConfig
+  obtain ⟨h1, h2⟩ := loop_refuse k cfg n _ [] prev {} { rest := input } (Nat.le_refl _) (Nat.zero_le _)
+  refine ⟨fun hlt => ?_, h1⟩
+  obtain ⟨hc, hl, l, hsuf⟩ := h2 hlt
+  refine ⟨hc, ?_⟩
+  rw [hsuf, List.reverse_append, List.take_left' (by simpa using hl)]
+
+/-- so a refusing handler never sees more than `n` events -/
+theorem refusal_stops (k : Kind) (cfg : Cfg) (n : Nat) (prev : Nat) (input : List UInt8) :
+    (parseConfig k cfg (record (some n)) [] prev input).ctx.length ≤ n := by
+  by_cases h : n < (parseConfig k cfg (record none) [] prev input).ctx.length
+  · have := ((refusal_reported k cfg n prev input).1 h).2
+    have hl := congrArg List.length this
+    simp only [List.length_reverse, List.length_take] at hl
+    omega
+  · rw [(refusal_reported k cfg n prev input).2 (by omega)]; omega
+
+/-! ### the 16-bit identifier limit -/
+
+/-- **A name that does not fit an identifier is refused, not truncated**: `mpt_node_append` for a section
+    or option element whose name (last path element) has 65535 bytes or more returns NULL, whatever the
+    tree built so far — `mpt_parse_config` then returns -0x80 (`refusal_reported`) and `mpt_parse_node`
+    leaves the target alone.  (Path elements themselves have no length limit in the model: the path
+    buffer of the real parser is an array that grows, `parser_context.valid` is a `size_t` since fix
+    dd47ea9.) -/
+theorem name_limit_refused (b : Build) (s : St) (prev : Nat) (ret : Int) (n : List UInt8)
+    (hret : ret = 1 ∨ ret = 3 ∨ ret = 7) (hlast : s.path.elems.getLast? = some n) (hlen : 65535 ≤ n.length) :
+    nodeAppend b s prev ret = none := by
+  have hname : nodeName s.path = none := by
+    unfold nodeName
+    rw [hlast]
+    have : n.length + 1 > 65535 := by omega
+    simp [this]
+  unfold nodeAppend
+  rcases hret with h | h | h <;> subst h <;> simp [Flag.sectEnd, Flag.section_, hname]
+
+/-- a shorter name is never refused for its length: the only other refusal is the structural one (an
+    element at depth 0 that is not the first child of the local root) -/
+theorem name_limit_accepted (b : Build) (s : St) (prev : Nat) (ret : Int) (n : List UInt8)
+    (hret : ret = 1 ∨ ret = 3 ∨ ret = 7) (hlast : s.path.elems.getLast? = some n) (hlen : n.length < 65535)
+    (hdepth : b.depth ≠ 0) : (nodeAppend b s prev ret).isSome = true := by
+  have hname : nodeName s.path = some n := by
+    unfold nodeName
+    rw [hlast]
+    have : ¬ (n.length + 1 > 65535) := by omega
+    simp [this]
+  unfold nodeAppend
+  rcases hret with h | h | h <;> subst h <;> simp [Flag.sectEnd, Flag.section_, Flag.data, hname, metaNew, hdepth] <;>
+    split <;> rfl
 
 /-! ### non-vacuity: concrete inputs -/
 section examples
@@ -203,6 +285,14 @@ example : (next .sep { fmt := (parseFormat (some (bytes "/ / =;#"))).1 } 2
       { path := { elems := [[]], hasBuf := true } } { rest := bytes "x" }).1 = 1
     ∧ (next .sep { fmt := (parseFormat (some (bytes "/ / =;#"))).1 } 2
       { path := { elems := [[]], hasBuf := true } } { rest := bytes "x" }).2.2.rest = bytes "x" := by
+  decide +kernel
+/-- a handler that refuses the second call: -0x80, one event delivered -/
+example : (parseConfig .pre {} (record (some 1)) [] 0 (bytes "a {\nb=1\n}\n")).code = -128
+    ∧ (parseConfig .pre {} (record (some 1)) [] 0 (bytes "a {\nb=1\n}\n")).ctx = [.sect [bytes "a"]] := by
+  decide +kernel
+/-- a read error behind a complete text: the option is delivered, the parse fails -/
+example : (parseConfig .pre { eof := -1 } (record none) [] 0 (bytes "a=1\n")).code = -1
+    ∧ (parseConfig .pre { eof := -1 } (record none) [] 0 (bytes "a=1\n")).ctx.length = 1 := by
   decide +kernel
 end examples
 
